@@ -294,6 +294,22 @@ def _norm_shape(s):
 
 
 # ---------------------------------------------------------------------------------------------------
+def _wrapper_adts(env):
+    """local ADTs implementing std Iterator whose only field is a reference to a ConcurrentIter: the `values()` /
+    `ids_and_values()` iterators (rule WRAP decides that their `next` hands on exactly what the pull returned)"""
+    F, R = env.F, env.R
+    out = set()
+    for i in F.impls_of_trait.get("std::iter::Iterator", []):
+        adt = adt_of(i["self_ty"])
+        a = F.adts.get(adt) if adt else None
+        if a is None:
+            continue
+        fs = a["variants"][0]["fields"]
+        if len(fs) == 1 and fs[0]["ty"].get("k") == "ref" and any((R.T_CON.split("::")[-1]) in p for p in a.get("predicates", [])):
+            out.add(adt)
+    return out
+
+
 def _user_call(c):
     return c is not None and not c.indirect and c.trait in ("std::ops::FnMut", "std::ops::FnOnce", "std::ops::Fn") \
         and c.self_param is not None
@@ -350,6 +366,7 @@ def rule_each(env, shared):
         ev = Evaluator(F, inline=False)
         ctx = Ctx(a, stack=(a.def_,))
         loc = a.file_line()
+        wrappers = _wrapper_adts(env)
         parts = _algo_parts(env, ev, a, bn)
         pulls = []
         creations = []
@@ -359,6 +376,13 @@ def rule_each(env, shared):
                     continue
                 if c.trait == R.T_CON and c.name in ("next", "next_id_and_value"):
                     pulls.append((bi, t, c, "single", hb, hctx))
+                elif c.trait == "std::iter::Iterator" and c.name == "next" and adt_of(c.self_ty or {}) in wrappers:
+                    # `for x in iter.values()` / `iter.ids_and_values()`: one single pull per round (WRAP)
+                    pulls.append((bi, t, c, "single", hb, hctx))
+                elif c.trait == "std::iter::Iterator" and c.name == "fold" and adt_of(c.self_ty or {}) in wrappers \
+                        and nm == "fold" and len(t["args"]) == 3:
+                    # `iter.values().fold(acc, f)`: std's left fold pulls until None and calls f once per element, in order
+                    pulls.append((bi, t, c, "singlefold", hb, hctx))
                 elif bn is not None and c.def_ == bn.def_ or (c.local and c.name == "next" and bn is not None
                                                               and c.path == bn.path):
                     pulls.append((bi, t, c, "buffered", hb, hctx))
@@ -392,7 +416,7 @@ def rule_each(env, shared):
                           "call can return without consuming the iterator" % env.fname(bad_part)))
         else:
             out.append(Ob("EACH", k, "ok", loc, "every path pulls until the iterator reports the end", True))
-        kinds = sorted(p[3] for p in pulls)
+        kinds = sorted("single" if p[3] == "singlefold" else p[3] for p in pulls)
         k = "EACH|%s|pulls" % nm
         if kinds != ["buffered", "single"]:
             out.append(Ob("EACH", k, "viol", loc, "%s does not have exactly one single-pull loop and one buffered loop: %s" % (
@@ -401,6 +425,20 @@ def rule_each(env, shared):
         out.append(Ob("EACH", k, "ok", loc, "one single-pull arm and one buffered arm"))
         algo_body, algo_ctx = a, ctx
         for (bp, t, c, kind, a, ctx) in pulls:
+            if kind == "singlefold":
+                key = "EACH|%s|single-loop" % nm
+                src = unref(ev.operand(ctx, t["args"][0]))
+                over_self = src[0] in ("ret", "call") and str(src[1]).endswith("::values") and src[2] and \
+                    _map_params(unref(src[2][0]), None) in (("param", 1), ("deref", ("param", 1)))
+                okk = over_self and _is_user_fn_operand(a, t["args"][2])
+                out.append(Ob("EACH", key + "|exit", "ok" if okk else "viol", a.file_line(t["loc"]),
+                              "std's fold over values() pulls until the iterator reports None" if okk else
+                              "the single-pull arm of %s folds over something that is not `self.values()` with the user's function"
+                              % nm, True))
+                out.append(Ob("EACH", key + "|one-call-per-element", "ok" if okk else "viol", a.file_line(t["loc"]),
+                              "std's left fold passes each pulled element to the function exactly once, threading the accumulator"
+                              if okk else "cannot establish one call per element", True))
+                continue
             key = "EACH|%s|%s-loop" % (nm, kind)
             sccs = [body for (h, body) in a.natural_loops()]
             scc = [s for s in sccs if bp in s]
@@ -709,8 +747,11 @@ def _algo_parts(env, ev, a, bn, depth=0, argmap=None, site=(None, None)):
         hb = F.bodies[c.def_]
         if hb.is_closure or F.impl_self_adt(hb) is not None or (bn is not None and hb.def_ == bn.def_):
             continue
+        wr = _wrapper_adts(env)
         touches = any((c2.trait == R.T_CON and c2.name in ("next", "next_id_and_value", "buffered_iter"))
-                      or (bn is not None and c2.def_ == bn.def_) for _, _, c2 in hb.calls())
+                      or (bn is not None and c2.def_ == bn.def_)
+                      or (c2.trait == "std::iter::Iterator" and c2.name in ("next", "fold") and adt_of(c2.self_ty or {}) in wr)
+                      for _, _, c2 in hb.calls())
         if not touches:
             continue
         am = {}
